@@ -36,6 +36,13 @@ static void case_c09(const drvargs_t *a,long id){
   }
   chain_describe(&cd,desc,sizeof desc);
   if(build_chain(&cd,&phys,loff)){ res_sample("encoder refused: %s",desc); res_end(); buf_free(&phys); return; }
+  if(id%12==5){ /* some links carry a second, foreign logical stream multiplexed in (BOS after the Vorbis BOS, pages in between, its end before or after the Vorbis EOS page):
+                   vorbisfile ignores streams it does not decode, so nothing it reports about the link may change */
+    buf_t q; buf_init(&q); size_t nl2[VH_MAXLINKS+1]; size_t dl=strlen(desc);
+    for(int i=0;i<cd.nlinks;i++){ nl2[i]=q.n; buf_t one; one.p=phys.p+loff[i]; one.n=loff[i+1]-loff[i]; one.cap=one.n;
+      if(rng_chance(&r,0.6)){ int where=(int)rng_below(&r,2); mux_add_foreign(&one,0x0f00d000+i,rng_next(&r),where,&q); if(dl+40<sizeof desc) dl+=snprintf(desc+dl,sizeof desc-dl," {link %d +foreign stream, ends %s}",i,where?"after":"before"); }
+      else buf_add(&q,one.p,one.n); }
+    nl2[cd.nlinks]=q.n; buf_free(&phys); phys=q; for(int i=0;i<=cd.nlinks;i++) loff[i]=nl2[i]; res_count("chains_with_multiplexed_foreign_streams",1); }
   vh_dump("stream.ogg",phys.p,phys.n);
   handle_t h; int ret=h_open(&h,phys.p,phys.n,1);
   res_eval(1);
@@ -289,7 +296,8 @@ static void case_c17(const drvargs_t *a,long id){
     int mis=(int)rng_below(&r,2);
     unsigned char *raw=malloc((size_t)length+mis+1); unsigned char *buf=raw+mis;
     memset(raw,0xA5,(size_t)length+mis);
-    int bsB=-1; long got=ov_read(&B.vf,(char*)buf,length,be,word,sgned,&bsB);
+    int bsB=-1; int nosec=rng_chance(&r,0.3);   /* the section pointer is optional: a caller that passes NULL must get the same bytes */
+    long got=ov_read(&B.vf,(char*)buf,length,be,word,sgned,nosec?NULL:&bsB); if(nosec) bsB=bsA;
     res_eval(1);
     if(word<=0 || (availA>0 && length<frame)){
       res_count("error_requests",1);
